@@ -84,7 +84,7 @@ class FeatNormalizer(ABC):
         pass
 
     @abstractmethod
-    def get_ueg(self, rho=1.0):
+    def get_ueg(self, rho=1.0, inh=0.0):
         pass
 
 
@@ -108,7 +108,7 @@ class ConstantNormalizer(FeatNormalizer):
     def get_normed_feature_deriv(self, x, rho, inh, dx, drho, dinh):
         return dx * self.const
 
-    def get_ueg(self, rho=1.0):
+    def get_ueg(self, rho=1.0, inh=0.0):
         return self.const
 
 
@@ -136,7 +136,7 @@ class DensityNormalizer(FeatNormalizer):
         fac = self.const * rho**self.power
         return fac * (dx + self.power * x * drho / rho)
 
-    def get_ueg(self, rho=1.0):
+    def get_ueg(self, rho=1.0, inh=0.0):
         return self.const * rho**self.power
 
 
@@ -172,8 +172,8 @@ class InhomogeneityNormalizer(FeatNormalizer):
             self.power - 1
         )
 
-    def get_ueg(self, rho=1.0):
-        return self.const1
+    def get_ueg(self, rho=1.0, inh=0.0):
+        return self.const1 * (1 + self.const2 * inh) ** self.power
 
 
 class GeneralNormalizer(FeatNormalizer):
@@ -214,8 +214,8 @@ class GeneralNormalizer(FeatNormalizer):
         res += x * fac1 * self.power2 * self.const2 * inh ** (self.power2 - 1) * dinh
         return res
 
-    def get_ueg(self, rho=1.0):
-        return self.const1 * rho**self.power1
+    def get_ueg(self, rho=1.0, inh=0.0):
+        return self.const1 * rho**self.power1 * (1 + self.const2 * inh) ** self.power2
 
 
 def get_invariant_normalizer_from_exponent_params(power, a0, tau_mul):
@@ -392,10 +392,13 @@ class FeatNormalizerList:
         return df_dX0T
 
     def ueg_vector(self, rho=1.0):
+        # the inhomogeneity variable of the uniform gas: tau / tau_ueg (nst) and
+        # alpha (npa) are 1, the GGA modes only see the (vanishing) gradient
+        inh = 1.0 if self.slmode in ["nst", "npa"] else 0.0
         norms = []
         for n in self._normalizers:
             if n is None:
                 norms.append(1.0)
             else:
-                norms.append(n.get_ueg(rho))
+                norms.append(n.get_ueg(rho, inh))
         return np.array(norms)
